@@ -30,6 +30,8 @@ Step(e) ==
                             /\ e.acc = FALSE
     [] e.op = "tick"     -> Tick
     [] e.op = "rotate"   -> Rotate(e.slot, e.sending)
+    [] e.op = "use"      -> Use(e.slot)
+    [] e.op = "skip"     -> UNCHANGED vars
 
 TraceNext == /\ l <= N /\ l' = l + 1 /\ Step(Rec[l])
 TraceSpec == TraceInit /\ [][TraceNext]_tvars
